@@ -340,6 +340,33 @@ def d7(ctx, rid):
     ctx.ok(rid, 'scan', '', '%d pairs of successive acquisitions of one lock in one body examined, %d carry a decision across' % (n, nbad), nontrivial=False, queries=max(1, n))
 
 
+def d8(ctx, rid):
+    """the offset a record is stamped with (header field, index entry) is the offset the append reserved: every implementation
+    of WritableDataCreator::create builds its data and its result from the `offset` it is handed inside the non-cancellable
+    closure - an offset taken earlier (File::size() in the async body) is stale as soon as another closure reserves first, e.g.
+    the detached closure of a write whose future was dropped"""
+    prog = ctx.prog
+    impls = [d for (st, d) in prog.trait_impls.get('io::WritableDataCreator::create', [])]
+    n = 0
+    for d in impls:
+        f = prog.fns.get(d)
+        if f is None:
+            continue
+        n += 1
+        key = 'stamped-offset-is-reserved-offset|%s' % d
+        carry = core.flows_forward(f, 2)
+        into_calls = [c for c in f.calls if c.bb in f.reachable() and any(op_local(a) in carry for a in c.args)]
+        if 0 in carry and into_calls:
+            ctx.ok(rid, key, f.where(), 'the offset parameter reaches the result and `%s`' % into_calls[0].name)
+        elif 0 in carry:
+            ctx.ok(rid, key, f.where(), 'the offset parameter reaches the result')
+        else:
+            ctx.bad(rid, key, f.where(), 'this WritableDataCreator ignores the offset reserved for it: the header / index entry carry an offset '
+                    'computed before the reservation, which is wrong whenever another append (a detached one of a dropped write future) reserves first')
+    if n < 1:
+        raise core.AnchorLost('impls of io::WritableDataCreator::create: %d' % n)
+
+
 RULES = [
     Rule('C08.D1', 'the wait-for graph over lock classes, the bounded worker channel and task joins has no cycle with conflicting modes', d1, 1),
     Rule('C08.D2', 'every record append on a blob is made with exclusive access that is still held at the index push of that record', d2, 2),
@@ -347,5 +374,6 @@ RULES = [
     Rule('C08.D5', 'the active slot is assigned only where it was seen empty through the exclusive guard in hand (no check-then-act across two acquisitions)', d5, 4),
     Rule('C08.D6', 'no file of the io layer is opened with O_APPEND: the reserved offset is the offset written (C11.F9 instance)', d6, 1),
     Rule('C08.D7', 'no value computed under a released guard of a lock is handed to a later write guard of the same lock in the same body', d7, 1),
+    Rule('C08.D8', 'every WritableDataCreator builds its result from the offset reserved for it inside the append closure', d8, 1),
     Rule('C08.D4', 'append offsets originate only in the atomic size reservation; the counter is only loaded / fetch_add-ed', d4, 5),
 ]
